@@ -481,7 +481,7 @@ func Run(c Case, scratch string) *Record {
 				dm[t.Oid]++
 				dmu.Unlock()
 				if c.SlowWatch && w == 0 {
-					time.Sleep(200 * time.Microsecond)
+					time.Sleep(time.Duration(200+int(t.Oid[1])%7*150) * time.Microsecond)
 				}
 			}
 		}(w)
